@@ -457,6 +457,10 @@ func (p *Proof) ProvesStatement(sign int, factor uint, bound *big.Int) bool {
 		return false
 	}
 	if len(p.Cs) == 3 {
+		if factor > math.MaxInt64/4 {
+			// 4*factor must not wrap around: otherwise e.g. factor 2^62+1 would be taken for factor 1
+			return false
+		}
 		factor *= 4
 		bound = new(big.Int).Mul(bound, big.NewInt(4))
 		bound.Sub(bound, big.NewInt(2))
